@@ -3,6 +3,6 @@ INVARIANT CachedIsFresh EntriesFresh
 CHECK_DEADLOCK FALSE
 CONSTANTS
   CNames <- MCNames
-  CFilters <- MCFilters
+  CAggs <- MCAggs
   CWait = 1
   CTimes = {150, 300}
